@@ -321,7 +321,16 @@ def _p_shapes(blocks, st, top):
         sid = st["sid"]
         st["y"] += 400000
         y = st["y"]
-        xfrm = f'<a:xfrm><a:off x="{500000 + sid}" y="{y}"/><a:ext cx="8000000" cy="350000"/></a:xfrm>'
+        if st.get("layout") == "same" and top and all(x["k"] in ("p", "list") for x in blocks):
+            # (only for slides made of text shapes: the extractor orders shapes by position and collects text shapes, pictures and graphic frames in
+            #  separate passes, so a tie between different kinds has no defined order)
+            # every shape at the same offset (stacked text boxes, or shapes that inherit their position from the layout): reading order is then the order in the file
+            xfrm = '<a:xfrm><a:off x="500000" y="900000"/><a:ext cx="8000000" cy="350000"/></a:xfrm>'
+            y = 900000
+            sid_off = 0
+        else:
+            xfrm = f'<a:xfrm><a:off x="{500000 + sid}" y="{y}"/><a:ext cx="8000000" cy="350000"/></a:xfrm>'
+            sid_off = sid
         k = b["k"]
         if k in ("p", "list"):
             is_title = k == "p" and b.get("h") and not st["has_title"] and top
@@ -341,7 +350,7 @@ def _p_shapes(blocks, st, top):
                 cells = "".join(f'<a:tc><a:txBody><a:bodyPr/><a:lstStyle/>{_a_paras(c["blocks"], st)}</a:txBody><a:tcPr/></a:tc>' for c in row)
                 rows.append(f'<a:tr h="370840">{cells}</a:tr>')
             out.append(f'<p:graphicFrame><p:nvGraphicFramePr><p:cNvPr id="{sid}" name="Table {sid}"/><p:cNvGraphicFramePr><a:graphicFrameLocks noGrp="1"/></p:cNvGraphicFramePr><p:nvPr/></p:nvGraphicFramePr>'
-                       f'<p:xfrm><a:off x="{500000 + sid}" y="{y}"/><a:ext cx="8000000" cy="350000"/></p:xfrm>'
+                       f'<p:xfrm><a:off x="{500000 + sid_off}" y="{y}"/><a:ext cx="8000000" cy="350000"/></p:xfrm>'
                        '<a:graphic><a:graphicData uri="http://schemas.openxmlformats.org/drawingml/2006/table"><a:tbl><a:tblPr firstRow="1" bandRow="1"/><a:tblGrid>'
                        + '<a:gridCol w="2000000"/>' * ncol + "</a:tblGrid>" + "".join(rows) + "</a:tbl></a:graphicData></a:graphic></p:graphicFrame>")
         elif k == "box":  # group shape
@@ -404,7 +413,7 @@ def render_pptx(doc, *, images=None, opts=None) -> bytes:
                 target = {"parent": "../media/" + name, "absolute": "/ppt/media/" + name, "relative": "../media/./" + name}[form]
                 rid_cache[idx] = rid("image", target)
             return rid_cache[idx]
-        st = {"sid": 1, "y": 0, "has_title": False, "rid": rid, "img_rid": img_rid, "images": images}
+        st = {"sid": 1, "y": 0, "has_title": False, "rid": rid, "img_rid": img_rid, "images": images, "layout": opts.get("layout")}
         shapes = _p_shapes(u["blocks"], st, True)
         if doc.get("footer") is not None:
             st["sid"] += 1
